@@ -150,7 +150,8 @@ def inputs_from_states(states, contig_len):
         if st["ph"] != "ret":
             continue
         reads = [{"c": 1, "pos": r["pos"], "cig": [list(x) for x in r["cig"]], "dup": r["dup"], "sec": r["sec"],
-                  "unmap": r["unmap"], "qcfail": r["qcfail"], "mapq": r["mapq"]} for r in st["reads"]]
+                  "unmap": r["unmap"], "qcfail": r["qcfail"], "mapq": r["mapq"], "extra_flag": r["xflag"]}
+                 for r in st["reads"]]
         reads.sort(key=lambda r: r["pos"])
         nb = 0
         m = 1
@@ -217,7 +218,10 @@ def random_inputs(ctx: Ctx, n):
                 for key in flags:
                     flags[key] = rng.random() < 0.5
             rd = {"c": c, "pos": pos, "cig": cig if not flags["unmap"] or rng.random() < 0.5 else [], **flags,
-                  "mapq": rng.choice([0, 1, 9, 10, 11, 20, 30, 59, 60]), "extra_flag": rng.choice([0, 0, 1 + 2 + 64, 16, 2048])}
+                  "mapq": rng.choice([0, 1, 9, 10, 11, 20, 30, 59, 60]),
+                  # every other flag bit, alone and combined: none of them may stop a read from being counted
+                  "extra_flag": rng.choice([0, 0, 1 + 2 + 64, 1 + 8 + 64, 16, 2048, 1 + 2 + 16 + 128, 1 + 32 + 64, 8, 32,
+                                            rng.choice([1, 2, 8, 16, 32, 64, 128, 2048]) | rng.choice([0, 1, 8, 32, 2048])])}
             reads.append(rd)
         reads.sort(key=lambda r: (r["c"], r["pos"]))
         minq = rng.choice([0, 0, 1, 10, 20, 30, 60])
@@ -300,6 +304,10 @@ def run(ctx: Ctx):
                 ctx.bump("mapq_equal_to_cutoff")
             if sum(bool(rd[k]) for k in ("dup", "sec", "unmap", "qcfail")) == 1:
                 ctx.bump("single_flag_alone")
+            if rd.get("extra_flag", 0) and not any(rd[k] for k in ("dup", "sec", "unmap", "qcfail")):
+                ctx.bump("counted_read_with_other_flag_bits")
+                if rd["extra_flag"] & 8:
+                    ctx.bump("counted_read_with_mate_unmapped_flag")
             if rd["cig"] and rd["cig"][0][0] == 4 and rd["cig"][-1][0] == 4:
                 ctx.bump("soft_clips_both_ends")
             end = rd["pos"] + sum(ln for op, ln in rd["cig"] if op in (0, 2, 3, 7, 8))
@@ -324,7 +332,7 @@ def run(ctx: Ctx):
         s["reads"] = s["reads"][:3]
         ctx.sample(s)
     ctx.validate(TRACE, recs, batch=2000)
-    ctx.exhaustive = ("every single read of MC_Coverage (3 positions x 6 CIGAR shapes x 5 flag states x "
+    ctx.exhaustive = ("every single read of MC_Coverage (3 positions x 6 CIGAR shapes x 13 flag states (4 excluding flags and 8 other bits, each alone) x "
                       + ("3 MAPQs) x 3" if thorough else "2 MAPQs) x 2") + " cut-offs x 2 "
                       "algorithms against all 120 bins [s,e), 0<=s<=e<=14, of a 12-base contig"
                       + ("; plus all ordered pairs of counted-quality reads" if thorough else ""))
